@@ -3,7 +3,7 @@ import UPVerif.Core.ExprSexp
 import UPVerif.Core.Problem
 import UPVerif.Core.Eval
 import UPVerif.Core.Sim
-import UPVerif.Core.SimSimp
+import UPVerif.Core.Walkers.Simplify
 /-!
 Line-protocol handler shared by C01 and C02: runs the executable model of the sequential simulator
 (`Core/Sim.lean`) on one case
@@ -13,21 +13,48 @@ Line-protocol handler shared by C01 and C02: runs the executable model of the se
        | (goal i) | (ugoals i)
 
 State slot 0 is the initial state; the j-th op (1-based), when it is a successful `apply`, fills
-slot j.  The answer is the list of the ops' answers.  The simplifier handed to `Sim.ground` is the
-local stand-in `SimSimp.simp` (to be replaced by C11's verified model).
+slot j.  The answer is the list of the ops' answers.  The simplifier handed to `Sim.ground` is property
+C11's verified model `simplify` (`Core/Walkers/Simplify.lean`) configured like `env.simplifier` (no
+problem: no static fluents); should it fail (division of a constant by zero, missing table entry — both
+outside the checked domain) a poison leaf is produced whose evaluation is the error `other`, so the
+divergence from the code, which raises at grounding time, is visible and never a silent value.
 -/
 namespace UPVerif.Drv.C01
 open UPVerif UPVerif.Sim
 
-def parseFn (es : List Sexp) : Option (FunRef → List Val → Option Val) := do
-  let tab ← es.mapM (fun e => match e with
+def parseFnTable (es : List Sexp) : Option (List (FunRef × List Val × Val)) :=
+  es.mapM (fun e => match e with
     | .list [r, .list as, v] => do
-      let rr ← parseRef r
+      let (n, ty, sig) ← parseRef r
       let aa ← as.mapM parseVal
       let vv ← parseVal v
-      some (rr, aa, vv)
+      some (({ name := n, ty := ty, sig := sig } : FunRef), aa, vv)
     | _ => none)
-  some (fun g as => (tab.find? (fun e => e.1 == (g.name, g.ty, g.sig) && e.2.1 == as)).map (·.2.2))
+
+def fnOfTable (tab : List (FunRef × List Val × Val)) : FunRef → List Val → Option Val :=
+  fun g as => (tab.find? (fun e => e.1 == g && e.2.1 == as)).map (·.2.2)
+
+/-- the constant the library builds from the value an interpreted function returns -/
+def valExpr (ty : Ty) : Val → Option Expr
+  | .b x => some (Expr.bool x)
+  | .n q => (match ty with
+    | .int _ _ => if q.den = 1 then some (Expr.int q.num) else none
+    | .real _ _ => some (Expr.real q)
+    | _ => none)
+  | .o n => (match ty with
+    | .user t => some (.leaf (.obj n t))
+    | _ => none)
+
+/-- `problem.environment.simplifier` (the one `GrounderHelper(prune_actions=False)` and
+    `FNode.simplify()` use): no problem, hence no static fluents and no initial values -/
+def simpCfg (P : Problem) (tab : List (FunRef × List Val × Val)) : SimpCfg :=
+  { tenv := P.types, statics := [], init := [], defaults := [],
+    funs := tab.filterMap (fun e => (valExpr e.1.ty e.2.2).map (fun x => (e.1, e.2.1, x))) }
+
+def simpTotal (cfg : SimpCfg) (e : Expr) : Expr :=
+  match simplify cfg e with
+  | .ok e' => e'
+  | .error _ => .leaf (.timing "simplifier-raised")
 
 /-- all ground fluents in canonical order: declaration order, arguments in `product` order -/
 def allKeys (P : Problem) : List GKey :=
@@ -114,9 +141,9 @@ def runOps (W : World) : List Sexp → Array (Option SimState) → List Sexp →
 
 def handle : Sexp → Sexp
   | .list [.atom "sim", ps, .list (.atom "fn" :: fns), .list (.atom "ops" :: ops)] =>
-    match parseProblem ps, parseFn fns with
-    | some P, some fn =>
-      let W : World := { P := P, simp := SimSimp.simp P.types fn, fn := fn }
+    match parseProblem ps, parseFnTable fns with
+    | some P, some tab =>
+      let W : World := { P := P, simp := simpTotal (simpCfg P tab), fn := fnOfTable tab }
       -- slot 0 = the initial state (when accepted and no exception escapes)
       let s0 : Option SimState := match getInitialState W with
         | .ok (some s) => some s
